@@ -368,6 +368,21 @@ func panicSignature(msg string) string {
 		sb.WriteByte(ch)
 	}
 	out := sb.String()
+	if i := strings.Index(out, "interface {} is "); i >= 0 { // the dynamic type varies with the input
+		if j := strings.Index(out[i:], ", not "); j >= 0 {
+			out = out[:i] + "interface {} is T" + out[i+j:]
+		}
+	}
+	if i := strings.Index(out, "value of type "); i >= 0 {
+		if j := strings.Index(out[i:], " is not assignable"); j >= 0 {
+			out = out[:i] + "value of type T" + out[i+j:]
+		}
+	}
+	if i := strings.Index(out, "uncomparable type "); i >= 0 {
+		if j := strings.Index(out[i:], " @ "); j >= 0 {
+			out = out[:i] + "uncomparable type T" + out[i+j:]
+		}
+	}
 	if i := strings.Index(out, " @ "); i >= 0 { // keep the frame exact
 		if j := strings.Index(msg, " @ "); j >= 0 {
 			out = out[:i] + msg[j:]
@@ -465,42 +480,104 @@ func renderCase(cfg engineCfg, src string, env map[string]any) string {
 	return runCaseTimed(cfg, src, env, caseHardLimit).Res
 }
 
-const caseHardLimit = 20 * time.Second
+const caseHardLimit = 8 * time.Second
 
 // ---- time budget ("in time proportional to the loops and ranges the template spells out") ----
 
 // spelledCost over-approximates the number of node visits a template asks for: source and
-// environment size times, for every loop tag that may nest, the largest collection the
-// template or the environment spells out (integer literals count as range bounds).
+// environment size times, for every loop tag or range (at most four, they may nest), the
+// largest collection the template or the environment spells out: the length of a literal range
+// (a..b), the largest integer literal when a range has a computed endpoint, the largest
+// slice/map/string of the environment.
 func spelledCost(src string, envSize int, maxColl int) float64 {
 	L := float64(maxColl)
 	if L < 8 {
 		L = 8
 	}
-	// largest integer literal in the source
-	n, cur, digits := 0.0, 0.0, 0
-	for i := 0; i <= len(src); i++ {
-		if i < len(src) && src[i] >= '0' && src[i] <= '9' {
-			if digits < 12 {
-				cur = cur*10 + float64(src[i]-'0')
+	isDigit := func(c byte) bool { return c >= '0' && c <= '9' }
+	// integer literal ending at i (exclusive) / starting at i, skipping blanks
+	litBefore := func(i int) (float64, bool) {
+		for i > 0 && (src[i-1] == ' ' || src[i-1] == '\t') {
+			i--
+		}
+		j := i
+		for j > 0 && isDigit(src[j-1]) {
+			j--
+		}
+		if j == i {
+			return 0, false
+		}
+		v := 0.0
+		for k := j; k < i; k++ {
+			v = v*10 + float64(src[k]-'0')
+		}
+		if j > 0 && src[j-1] == '-' {
+			v = -v
+		}
+		return v, true
+	}
+	litAfter := func(i int) (float64, bool) {
+		for i < len(src) && (src[i] == ' ' || src[i] == '\t') {
+			i++
+		}
+		neg := false
+		if i < len(src) && src[i] == '-' {
+			neg = true
+			i++
+		}
+		j := i
+		v := 0.0
+		for j < len(src) && isDigit(src[j]) {
+			v = v*10 + float64(src[j]-'0')
+			j++
+		}
+		if j == i {
+			return 0, false
+		}
+		if neg {
+			v = -v
+		}
+		return v, true
+	}
+	ranges, computed := 0, false
+	for i := 0; i+1 < len(src); i++ {
+		if src[i] == '.' && src[i+1] == '.' {
+			ranges++
+			a, okA := litBefore(i)
+			b, okB := litAfter(i + 2)
+			if okA && okB {
+				if n := b - a + 1; n > L {
+					L = n
+				}
+			} else {
+				computed = true
 			}
-			digits++
-			continue
+			i++
 		}
-		if digits > 0 && cur > n {
-			n = cur
+	}
+	if computed { // an endpoint is a variable or a property: any integer literal may be a bound
+		cur, digits := 0.0, 0
+		for i := 0; i <= len(src); i++ {
+			if i < len(src) && isDigit(src[i]) {
+				cur = cur*10 + float64(src[i]-'0')
+				digits++
+				continue
+			}
+			if digits > 0 && cur > L {
+				L = cur
+			}
+			cur, digits = 0, 0
 		}
-		cur, digits = 0, 0
 	}
-	if n > L {
-		L = n
+	if L > 1e12 {
+		L = 1e12
 	}
-	loops := strings.Count(src, "for") + strings.Count(src, "tablerow")
-	if loops > 4 {
-		loops = 4
+	nest := strings.Count(src, "for") + strings.Count(src, "tablerow") + ranges
+	if nest > 4 {
+		nest = 4
 	}
 	cost := float64(len(src) + envSize + 64)
-	for i := 0; i < loops; i++ {
+	for i := 0; i < nest; i++ {
 		cost *= L
 	}
 	return cost
@@ -509,6 +586,9 @@ func spelledCost(src string, envSize int, maxColl int) float64 {
 // caseBudget is the nominal time allowed for a case of the given cost; the oracle reports only a
 // 50-fold overshoot that repeats.
 func caseBudget(cost float64) time.Duration {
+	if cost > 1e11 {
+		return caseHardLimit
+	}
 	d := 2*time.Millisecond + time.Duration(cost*200)*time.Nanosecond // 0.2 µs per unit
 	if d > caseHardLimit {
 		d = caseHardLimit
